@@ -590,6 +590,9 @@ func (g *heapGen) args(h *heapRun, op string, recv int, o *obj) *Step {
 			s = g.rng.Intn(L + 1)
 			l = g.rng.Intn(L - s + 1)
 		}
+		if g.rng.Intn(15) == 0 {
+			l = 1<<30 + g.rng.Intn(2) // the largest integers (see hugeLen)
+		}
 		a["start"], a["len"] = f64(s), f64(l)
 	case "SelectSites", "InversePositions":
 		if !needAl() {
@@ -612,6 +615,9 @@ func (g *heapGen) args(h *heapRun, op string, recv int, o *obj) *Step {
 		if g.rng.Intn(2) == 0 && L > 0 {
 			s = g.rng.Intn(L)
 			l = 1 + g.rng.Intn(L-s)
+		}
+		if g.rng.Intn(15) == 0 {
+			l = 1<<30 + g.rng.Intn(2) // the largest integers (see hugeLen)
 		}
 		a["start"], a["len"] = f64(s), f64(l)
 	case "RefSites":
@@ -721,6 +727,9 @@ func (g *heapGen) args(h *heapRun, op string, recv int, o *obj) *Step {
 			a["start"] = f64(g.rng.Intn(L))
 		}
 		a["len"] = f64([]int{0, 1, 2, 3, L, L + 2}[g.rng.Intn(6)])
+		if g.rng.Intn(12) == 0 {
+			a["len"] = f64(1<<30 + g.rng.Intn(2)) // the largest integers (see hugeLen)
+		}
 		a["repl"] = toIface(s2i([]string{"", "AMBIG", "GAP", "MAJ", "Z", "-", "zz", "MAJ"}[g.rng.Intn(8)]))
 		a["nogap"], a["noref"] = g.rng.Intn(2) == 0, g.rng.Intn(2) == 0
 		if len(ref) == 0 && g.rng.Intn(4) != 0 {
